@@ -10,6 +10,14 @@ open Num
     zero length which the code replaces by NaN (modelled as `none`) -/
 def rayDirTwoPoints (p0 p1 : Vec3 α) : Vec3 α := Vec3.sdiv (p1 - p0) (Vec3.norm (p1 - p0))
 
+/-- torch `create_ray(xyz, abg)`: direction cosines `cos(deg2rad(abg))` per component (`direction = False`) -/
+def createRayDir (abg : Vec3 α) : Vec3 α :=
+  let c := fun (a : α) => Num.cos (a * Num.pi / Num.ofNat 180)
+  ⟨c abg.x, c abg.y, c abg.z⟩
+
+/-- `propagate_ray`: new start point `distance · d + o` -/
+def propagateRay (o d : Vec3 α) (t : α) : Vec3 α := ⟨t * d.x + o.x, t * d.y + o.y, t * d.z + o.z⟩
+
 /-- `create_ray_from_all_pairs`: start index and end index of ray number `idx` among `m·n` rays -/
 def allPairsIndex (n idx : Nat) : Nat × Nat := (idx / n, idx % n)
 
